@@ -2,6 +2,7 @@ import PhyloModel.Arena.Query
 import PhyloModel.Newick.Writer
 import PhyloModel.Split.Model
 import PhyloModel.Matrix.Store
+import PhyloModel.Matrix.Phylip
 /-! Line-protocol driver: runs the executable definitions of the model, one request per line
     (tab-separated fields), one answer line per request.  See /verif/PROTOCOL.md.
     Unknown or ill-formed requests answer `bad-op`; nothing is ever defaulted. -/
@@ -127,6 +128,49 @@ def isRustFloat (s : List Char) : Bool :=
   let lw := body.map lower
   lw == "inf".toList || lw == "infinity".toList || lw == "nan".toList || numberOk body
 def parseLex (s : NW.Label) : Option NW.Label := if isRustFloat s then some s else none
+
+/-! ### exact value of a float lexeme (the codec's `numEq`/`isZero` on lexemes) -/
+inductive FVal where | nan | inf (neg : Bool) | fin (r : Rat)
+
+def digitsVal (ds : List Char) : Nat := ds.foldl (fun acc c => acc * 10 + (c.toNat - 48)) 0
+
+def lexVal (s : List Char) : Option FVal :=
+  if !isRustFloat s then none else
+  let (neg, body) := match s with | '-' :: r => (true, r) | '+' :: r => (false, r) | r => (false, r)
+  let lw := body.map lower
+  if lw == "nan".toList then some .nan
+  else if lw == "inf".toList || lw == "infinity".toList then some (.inf neg)
+  else
+    let (mant, ex) := match body.span (fun c => c != 'e' && c != 'E') with
+      | (m, _ :: e) => (m, e)
+      | (m, []) => (m, [])
+    let (ip, fp) := match mant.span (· != '.') with
+      | (i, _ :: f) => (i, f)
+      | (i, []) => (i, [])
+    let m : Nat := digitsVal (ip ++ fp)
+    let (eneg, ed) := match ex with | '-' :: r => (true, r) | '+' :: r => (false, r) | r => (false, r)
+    let e : Int := (if eneg then -1 else 1) * (digitsVal ed : Int) - fp.length
+    let r : Rat := if e ≥ 0 then (m * 10 ^ e.toNat : Nat) else mkRat m (10 ^ (-e).toNat)
+    some (.fin (if neg then -r else r))
+
+def lexEq (a b : List Char) : Bool :=
+  match lexVal a, lexVal b with
+  | some (.fin x), some (.fin y) => x == y
+  | some (.inf p), some (.inf q) => p == q
+  | _, _ => false
+def lexIsZero (a : List Char) : Bool := match lexVal a with | some (.fin x) => x == 0 | _ => false
+
+def lexCodec : PHY.Codec (List Char) :=
+  { showL := id, parseL := fun s => if isRustFloat s then some s else none, numEq := lexEq, isZero := lexIsZero, zero := ['0'] }
+
+def encLexMat (m : MXS.Mat (List Char)) : String :=
+  (if m.taxa.isEmpty then "_" else ",".intercalate (m.taxa.map hexEnc)) ++ " | " ++
+  " ".intercalate (m.v.toList.map (fun l => "h" ++ hexEnc (String.ofList l)))
+
+def encPRes {β : Type} (f : β → String) : PHY.PRes β → String
+  | .ok v => "ok " ++ f v
+  | .err k => "err " ++ k
+  | .panic => "panic"
 
 def fmtOfNat : Nat → Option FM.Fmt
   | 0 => some .allFields | 1 => some .topology | 2 => some .noComments | 3 => some .onlyNames
@@ -260,6 +304,24 @@ def dispatch (st : DState) (fs : List String) : DState × String :=
   | ["ar.swap"] => ({ st with ar := st.ar2, ar2 := st.ar }, "ok")
   | "sp" :: q => match spQuery st.ar st.ar2 q with | some r => (st, r) | none => bad
   | ["nop"] => (st, "ok")
+  | ["ph.parse", entry, hx] => match hexDec hx with
+    | some text =>
+      let r := match entry with
+        | "tril" => some (PHY.fromPhylipTril lexCodec text.toList)
+        | "strict-square" => some (PHY.fromPhylipStrict lexCodec text.toList true)
+        | "strict-tril" => some (PHY.fromPhylipStrict lexCodec text.toList false)
+        | _ => none
+      match r with
+      | some r => (st, encPRes encLexMat r)
+      | none => bad
+    | none => bad
+  | ["ph.write", sq, taxa, cells] =>
+    -- cells: space-separated `h<hex lexeme>`
+    match decTaxa taxa, (if cells == "_" then some [] else (words cells).mapM (fun w => (decOptStr w).bind id)) with
+    | some t, some c =>
+      let m : MXS.Mat (List Char) := { taxa := t, v := (c.map String.toList).toArray }
+      (st, "ok " ++ hexEnc (String.ofList (PHY.toPhylip lexCodec m (sq == "1"))))
+    | _, _ => bad
   | ["mx.new", taxa, cells] => match decTaxa taxa, decInts cells with
     | some t, some c => ({ st with mx := { taxa := t, v := c.toArray } }, "ok")
     | _, _ => bad
